@@ -3,6 +3,7 @@ import RemocModel.Robs.VecDeque
 import RemocModel.Robs.HashMap
 import RemocModel.Robs.HashSet
 import RemocModel.Robs.List
+import RemocModel.Robs.Errors
 import Driver.Util
 /-
 Driver for the C13 correspondence (and, with `c14` cases, C14; see `Driver/RobsFaults.lean`): reads
@@ -538,6 +539,293 @@ def runCase (cd : Codec S) (id : String) (lines : List String) : List String :=
 
 end RobsDriver
 
+/-! ### C14: fault scenarios -/
+
+namespace RobsDriver
+
+variable {S : Sys}
+
+/-- run the internal transitions of the subscriber/mirror LTS until none is enabled -/
+def runInternal (s : MSt S) : Nat → MSt S
+  | 0 => s
+  | fuel + 1 =>
+    match s.step .consume with
+    | some s' => runInternal s' fuel
+    | none =>
+      match s.step .shed with
+      | some s' => runInternal s' fuel
+      | none =>
+        match s.step .rearm with
+        | some s' => runInternal s' fuel
+        | none => s
+
+structure Sub14 (S : Sys) where
+  sid : String
+  k : Nat                 -- length of the history at subscription time
+  incr : Bool
+  remote : Bool
+  mirror : Bool
+  buf : Nat
+  max : Nat
+  c0 : S.C                -- real contents at subscription time
+  done0 : Bool
+  /-- model of a local snapshot mirror, advanced at every settle point -/
+  model : Option (MSt S)
+  /-- events already fed to the model -/
+  fed : Nat
+  recvs : List String := []
+  /-- borrow results: (history length at that time, contents, complete, done, err) -/
+  checks : List (Nat × String × String × String × String) := []
+  final : Option String := none
+
+structure St14 (S : Sys) where
+  id : String
+  obs : Obs S.C
+  init : S.C
+  hist : Array (Event S.Ev) := #[]
+  subs : List (Sub14 S) := []
+  dropped : Bool := false
+  cut : Bool := false
+  diffs : Nat := 0
+  fails : Nat := 0
+  out : Array String := #[]
+
+def St14.diff (st : St14 S) (what : String) : St14 S :=
+  { st with diffs := st.diffs + 1, out := st.out.push s!"DIFF {st.id} {what}" }
+
+def St14.fail (st : St14 S) (coll what cause : String) : St14 S :=
+  { st with fails := st.fails + 1, out := st.out.push s!"FAIL {st.id} {coll} {what} cause={cause}" }
+
+/-- advance the models of the local snapshot mirrors to the current settle point -/
+def advanceModels (st : St14 S) (dropNow : Bool) : St14 S :=
+  { st with subs := st.subs.map (fun s =>
+      match s.model with
+      | none => s
+      | some m =>
+        let evs := (st.hist.toList.drop (s.k + s.fed))
+        let m := evs.foldl (fun m e => (m.step (.emit e)).getD m) m
+        let m := if dropNow then (m.step .drop).getD m else m
+        let m := runInternal m (4 * (st.hist.size + 10))
+        { s with model := some m, fed := s.fed + evs.length }) }
+
+def showMirror14 (cd : Codec S) (t : Remoc.Robs.Task S.C) : String :=
+  if t.m.error.isSome then s!"? ? ? {showOptErr t.m.error}"
+  else s!"{cd.showC t.m.v} {showBool t.m.complete} {showBool t.m.done} -"
+
+def feedLine14 (cd : Codec S) (st : St14 S) (line : String) : St14 S :=
+  let ws := words line
+  match ws with
+  | "init" :: [c] =>
+    match cd.parseC c with
+    | some c => { st with obs := ⟨c, false⟩, init := c }
+    | none => st.diff s!"unparsable init {c}"
+  | "sub" :: sid :: mode :: place :: kind :: rest =>
+    let getOpt (key : String) (dflt : Nat) : Nat :=
+      match rest.find? (·.startsWith (key ++ "=")) with
+      | some t => ((t.drop (key.length + 1)).toString.toNat?).getD dflt
+      | none => dflt
+    let buf := getOpt "buf" 1000000
+    let max := getOpt "max" 1000000
+    let incr := mode == "incr"
+    let remote := place == "remote"
+    let mirror := kind == "mirror"
+    let model : Option (MSt S) :=
+      if mirror && !remote && !incr && !st.obs.done then some (MSt.init S st.obs.v buf max) else none
+    { st with subs := st.subs ++ [{ sid, k := st.hist.size, incr, remote, mirror, buf, max, c0 := st.obs.v,
+                                    done0 := st.obs.done, model, fed := 0 }] }
+  | "ev" :: rest =>
+    match parseEvent cd rest with
+    | some e => { st with hist := st.hist.push e }
+    | none => st.diff s!"unparsable event {" ".intercalate rest}"
+  | ["state", c, d] =>
+    match cd.parseC c, parseBool d with
+    | some rc, some rd =>
+      -- the events sent so far, applied by the model's handle_event, give the real contents
+      let folded := prefixState S 1000000 st.init st.hist.toList
+      let st := if cd.showC folded == cd.showC rc then st
+        else st.diff s!"state after {st.hist.size} events: real {c} but the events fold to {cd.showC folded}"
+      advanceModels { st with obs := ⟨rc, rd⟩ } false
+    | _, _ => st.diff s!"unparsable state line {line}"
+  | ["dropped"] => advanceModels { st with dropped := true } true
+  | ["cutdone"] => { st with cut := true }
+  | "recv" :: sid :: rest =>
+    { st with subs := st.subs.map (fun (s : Sub14 S) => if s.sid == sid then { s with recvs := s.recvs ++ [" ".intercalate rest] } else s) }
+  | ["borrow", sid, c, complete, done, err] =>
+    let chk := (st.hist.size, c, (complete.drop 9).toString, (done.drop 5).toString, (err.drop 4).toString)
+    let st : St14 S := { st with subs := st.subs.map (fun (s : Sub14 S) => if s.sid == sid then { s with checks := s.checks ++ [chk] } else s) }
+    -- model comparison for local snapshot mirrors
+    match st.subs.find? (fun (s : Sub14 S) => s.sid == sid) with
+    | some s =>
+      match s.model with
+      | some m =>
+        let real := if chk.2.2.2.2 == "-" then s!"{chk.2.1} {chk.2.2.1} {chk.2.2.2.1} -" else s!"? ? ? {chk.2.2.2.2}"
+        if showMirror14 cd m.task == real then st
+        else st.diff s!"mirror {sid} after {st.hist.size} events: real [{real}] model [{showMirror14 cd m.task}]"
+      | none => st
+    | none => st
+  | ["final", sid, c] =>
+    let st : St14 S := { st with subs := st.subs.map (fun (s : Sub14 S) => if s.sid == sid then { s with final := some c } else s) }
+    match st.subs.find? (fun (s : Sub14 S) => s.sid == sid) with
+    | some s =>
+      match s.model with
+      | some m =>
+        if cd.showC m.task.m.v == c then st
+        else st.diff s!"mirror {sid} detach: real {c} model {cd.showC m.task.m.v}"
+      | none => st
+    | none => st
+  | "crash" :: rest => st.diff s!"harness crash {" ".intercalate rest}"
+  | _ => st
+
+/-- position of `x` in `l` at or after index `from` -/
+def findFrom (l : List String) (x : String) (start : Nat) : Option Nat :=
+  ((l.drop start).findIdx? (· == x)).map (· + start)
+
+def isRemoteErr (e : String) : Bool :=
+  e == "RemoteReceive" || e == "RemoteConnect" || e == "RemoteListen"
+
+def checkMirror14 (cd : Codec S) (st : St14 S) (s : Sub14 S) : St14 S :=
+  let later := st.hist.toList.drop s.k
+  -- contents after every prefix of the history since the subscription (as texts)
+  let states : List String := (List.range (later.length + 1)).map (fun j => cd.showC (prefixState S s.max s.c0 (later.take j)))
+  let sizes : List Nat := (List.range (later.length + 1)).map (fun j => S.size (prefixState S s.max s.c0 (later.take j)))
+  -- walk through the checkpoints
+  let step := fun (acc : St14 S × Nat × Option String) (chk : Nat × String × String × String × String) =>
+    let (st, idx, err) := acc
+    let (_, c, complete, _, e) := chk
+    if e != "-" then
+      match err with
+      | some e0 => if e0 == e then (st, idx, err) else (st.fail cd.name s!"mirror-error-changed sub={s.sid} {e0} -> {e}" "unexplained", idx, some e)
+      | none => (st, idx, some e)
+    else
+      match err with
+      | some e0 => (st.fail cd.name s!"mirror-error-vanished sub={s.sid} {e0}" "unexplained", idx, none)
+      | none =>
+        if complete != "1" then (st, idx, err)   -- incremental initial value still arriving
+        else
+          match findFrom states c idx with
+          | some j =>
+            -- finding F9: the code as modelled accepts this prefix without error although the limit is exceeded
+            let t0 : Remoc.Robs.Task S.C :=
+              { m := { v := s.c0, complete := true, done := false, error := none, maxSize := s.max }, running := true }
+            let modelAccepts := (S.taskRun .pinned t0 ((later.take j).map Recv.ev)).m.error.isNone
+            let st := if (sizes.getD j 0) ≤ s.max then st
+              else st.fail cd.name s!"mirror-exceeds-max-size sub={s.sid} size={sizes.getD j 0} max={s.max}"
+                (if !modelAccepts then "unexplained"
+                 else if j == 0 || S.size s.c0 > s.max then "max-size-unchecked-snapshot" else "max-size-unchecked-event")
+            (st, j, err)
+          | none => (st.fail cd.name s!"mirror-not-a-prefix-state sub={s.sid} contents={c} after-index={idx}" "unexplained", idx, err)
+  let (st, idx, err) := s.checks.foldl step (st, 0, none)
+  -- detach: the last consistent contents stay retrievable
+  let st := match s.final with
+    | some c =>
+      let complete := (s.checks.getLast?.map (fun k => k.2.2.1 == "1" || k.2.2.1 == "?")).getD true
+      if !complete && err.isNone then st
+      else if !s.incr || err.isNone || true then
+        match findFrom states c idx with
+        | some _ => st
+        | none =>
+          -- an incremental mirror that failed before completion holds a partial initial value
+          if s.incr && err.isSome && (findFrom states c 0).isNone && !(s.checks.any (fun k => k.2.2.1 == "1")) then st
+          else st.fail cd.name s!"detach-not-a-prefix-state sub={s.sid} contents={c} after-index={idx}" "unexplained"
+      else st
+    | none => st
+  -- at the end (quiescence): no error => everything applied, and the collection was not lost
+  let st := match s.checks.getLast? with
+    | some (_, c, complete, done, e) =>
+      if e == "-" then
+        let st := if complete == "1" && c != states.getLast?.getD "" then
+            st.fail cd.name s!"mirror-stale-without-error sub={s.sid} mirror={c} collection={states.getLast?.getD ""}" "unexplained"
+          else st
+        let st := if complete != "1" then st.fail cd.name s!"mirror-incomplete-without-error sub={s.sid}" "unexplained" else st
+        let st := if st.dropped && done != "1" then st.fail cd.name s!"mirror-no-error-after-drop sub={s.sid}" "unexplained" else st
+        let st := if st.cut && s.remote && done != "1" then st.fail cd.name s!"mirror-no-error-after-cut sub={s.sid}" "unexplained" else st
+        st
+      else
+        -- the error must correspond to something that happened
+        let ok :=
+          if e == "Lagged" then s.buf < later.length
+          else if e == "Closed" then st.dropped || (st.cut && s.remote)
+          else if isRemoteErr e then st.cut && s.remote
+          else if e.startsWith "MaxSizeExceeded(" then e == s!"MaxSizeExceeded({s.max})" && sizes.any (· > s.max)
+          else false
+        if ok then st else st.fail cd.name s!"mirror-unexpected-error sub={s.sid} err={e}" "unexplained"
+    | none => st.diff s!"mirror {s.sid}: no borrow line"
+  st
+
+def checkHand14 (cd : Codec S) (st : St14 S) (s : Sub14 S) : St14 S :=
+  let later : List String := (st.hist.toList.drop s.k).map (showEvent cd)
+  let initEls : List String := if s.incr then (cd.incrEvents s.c0).map cd.showEv else []
+  -- phase 1 (incremental): the initial elements in any order, then InitialComplete
+  let toks := s.recvs
+  let (initGot, restToks) : List String × List String :=
+    if s.incr then
+      match toks.findIdx? (· == "InitialComplete") with
+      | some i => (toks.take i, toks.drop (i + 1))
+      | none => (toks, [])
+    else ([], toks)
+  let sawIC := !s.incr || toks.contains "InitialComplete"
+  let st := if !s.incr then st
+    else if sawIC then
+      (if sortStrs initGot == sortStrs initEls || (!cd.hashed && initGot == initEls) then st
+       else st.fail cd.name s!"initial-elements-differ sub={s.sid} got=[{"; ".intercalate initGot}] expected=[{"; ".intercalate initEls}]" "unexplained")
+    else st
+  -- phase 2: events; a gap must be announced by Lagged.  The same event text may occur several times in the
+  -- history, so all positions the subscriber can be at are tracked (`ps`: indices of the next expected event).
+  let walk := fun (acc : St14 S × List Nat × Bool × Bool × String) (tok : String) =>
+    let (st, ps, lagSeen, sawDone, _) := acc
+    if tok == "pending" || tok == "eof" then (st, ps, lagSeen, sawDone, tok)
+    else if tok.startsWith "err:" then
+      let e := (tok.drop 4).toString
+      let st := if e == "Lagged" && cd.name == "list" then st.fail cd.name s!"list-subscriber-lagged sub={s.sid}" "unexplained" else st
+      (st, ps, lagSeen || e == "Lagged", sawDone, tok)
+    else
+      let lo := ps.foldl min later.length
+      let direct := (ps.filter (fun p => later.getD p "" == tok && p < later.length)).map (· + 1)
+      let jumped := if lagSeen then
+          ((List.range later.length).filter (fun q => lo ≤ q && later.getD q "" == tok)).map (· + 1)
+        else []
+      let ps' := (direct ++ jumped).eraseDups
+      if !ps'.isEmpty then (st, ps', false, sawDone || tok == "Done", tok)
+      else
+        match findFrom later tok lo with
+        | some q =>
+          (st.fail cd.name s!"gap-without-Lagged sub={s.sid} skipped={q - lo} before={tok}" "unexplained",
+            [q + 1], false, sawDone || tok == "Done", tok)
+        | none => (st.fail cd.name s!"event-not-in-history sub={s.sid} event={tok}" "unexplained", ps, lagSeen, sawDone, tok)
+  let (st, ps, lagSeen, sawDone, last) := restToks.foldl walk (st, [0], false, false, "")
+  let caughtUp := ps.contains later.length
+  let p := ps.foldl max 0
+  -- end of the run: told about everything that was missed
+  if !sawIC then
+    -- the initial value never completed: that needs an error
+    if (toks.getLast?.getD "").startsWith "err:" then st
+    else st.fail cd.name s!"initial-value-incomplete-without-error sub={s.sid} last={toks.getLast?.getD "-"}" "unexplained"
+  else if last == "eof" then
+    if sawDone then st else st.fail cd.name s!"eof-without-Done sub={s.sid}" "unexplained"
+  else if last == "pending" then
+    let st := if caughtUp || lagSeen then st
+      else st.fail cd.name s!"stale-without-error sub={s.sid} received={p} sent={later.length}" "unexplained"
+    let st := if st.dropped && !sawDone then st.fail cd.name s!"no-error-after-drop sub={s.sid}" "unexplained" else st
+    let st := if st.cut && s.remote && !sawDone then st.fail cd.name s!"no-error-after-cut sub={s.sid}" "unexplained" else st
+    st
+  else if last.startsWith "err:" then
+    let e := (last.drop 4).toString
+    let ok :=
+      if e == "Closed" then (st.dropped || (st.cut && s.remote)) && (caughtUp || lagSeen || (st.cut && s.remote))
+      else if isRemoteErr e then st.cut && s.remote
+      else if e == "Lagged" then true
+      else false
+    if ok then st else st.fail cd.name s!"unexpected-final-error sub={s.sid} err={e} received={p} sent={later.length}" "unexplained"
+  else st
+
+def runCase14 (cd : Codec S) (id : String) (lines : List String) : List String :=
+  let st0 : St14 S := { id, obs := ⟨S.empty, false⟩, init := S.empty }
+  let st := lines.foldl (feedLine14 cd) st0
+  let st := st.subs.foldl (fun st s => if s.mirror then checkMirror14 cd st s else checkHand14 cd st s) st
+  st.out.toList ++ [s!"END {id} calls={st.hist.size} subs={st.subs.length} diffs={st.diffs} fails={st.fails}"]
+
+end RobsDriver
+
 open RobsDriver
 
 structure Top where
@@ -551,8 +839,16 @@ def step (st : Top) (_n : Nat) (line : String) : IO Top := do
   if l.isEmpty || l.startsWith "#" then return st
   match words l with
   | ["case", id, coll] => return { id, coll, lines := #[] }
+  | ["case", id, coll, kind] => return { id, coll, kind, lines := #[] }
   | ["end"] =>
-    let out := match st.coll with
+    let out := if st.kind == "c14" then (match st.coll with
+      | "vec" => runCase14 vecCodec st.id st.lines.toList
+      | "deque" => runCase14 dequeCodec st.id st.lines.toList
+      | "map" => runCase14 mapCodec st.id st.lines.toList
+      | "set" => runCase14 setCodec st.id st.lines.toList
+      | "list" => runCase14 listCodec st.id st.lines.toList
+      | other => [s!"DIFF {st.id} unknown collection {other}", s!"END {st.id} calls=0 subs=0 diffs=1 fails=0"])
+      else match st.coll with
       | "vec" => runCase vecCodec st.id st.lines.toList
       | "deque" => runCase dequeCodec st.id st.lines.toList
       | "map" => runCase mapCodec st.id st.lines.toList
